@@ -1160,6 +1160,18 @@ def distribution(cases, impl):
         n = len(_payload(c))
         r["max_len"] = max(r["max_len"], n)
         r["len_le_2"] += n <= 2
+    l2 = {"data_to_session": 0, "sccrq_resolved": 0, "sccrq_tunnel_created": 0, "rejected_or_ignored": 0}
+    for c, o in zip(cases, impl):
+        if c.startswith("l2dg "):
+            t = (o or "").split()
+            if t[:2] == ["ok", "30"]:
+                l2["data_to_session"] += 1
+            elif t[:2] == ["ok", "20"]:
+                l2["sccrq_resolved"] += 1
+                l2["sccrq_tunnel_created"] += t[-1] != "0"
+            else:
+                l2["rejected_or_ignored"] += 1
+    d["_l2dg_outcomes"] = l2
     d["_modelled_entries"] = MODELLED
     d["_backlog_scenarios"] = SCENARIOS
     d["_builder_entries"] = BUILDERS
